@@ -94,6 +94,10 @@ fn judged(rep: &mut Report, prop: &str, case: &Case) -> Option<usize> {
             rep.transitions += n as u64 + 1;
             Some(n)
         }
+        Err(e) if !relevant(&e) => {
+            rep.count("cases_failing_only_a_sibling_oracle", 1);
+            None
+        }
         Err(e) => {
             let again = case.run();
             if again.as_ref().err() != Some(&e) {
@@ -457,7 +461,7 @@ fn footprint_run(name: &str, rec: &[u8], block: Option<usize>, total: usize) -> 
         let third = (pos as u128 * 3 / (total as u128 + 1)).min(2) as usize;
         st.2[third] = st.2[third].max(chunks);
         if live > bound && st.3.is_none() {
-            st.3 = Some(format!("{} live arena bytes in {} chunks {} at stream offset {} (bound {})", live, chunks, what, pos, bound));
+            st.3 = Some(format!("[footprint] {} live arena bytes in {} chunks {} at stream offset {} (bound {})", live, chunks, what, pos, bound));
         }
     };
     loop {
@@ -479,12 +483,12 @@ fn footprint_run(name: &str, rec: &[u8], block: Option<usize>, total: usize) -> 
     }
     let (peak, peak_chunks, chunks_by_third, _) = stats.into_inner();
     if chunks_by_third[2] > chunks_by_third[0] + 2 || peak_chunks > 16 {
-        return Err(format!("live chunks grow with the stream: per third {:?}, peak {}", chunks_by_third, peak_chunks));
+        return Err(format!("[footprint] live chunks grow with the stream: per third {:?}, peak {}", chunks_by_third, peak_chunks));
     }
     drop(sr);
     let live1 = (ByteArena::num_live_chunks(), ByteArena::num_live_bytes());
     if live1 != live0 {
-        return Err(format!("arena leak after dropping the StreamReader: {:?} -> {:?}", live0, live1));
+        return Err(format!("[leak] arena leak after dropping the StreamReader: {:?} -> {:?}", live0, live1));
     }
     Ok((records, peak, peak_chunks))
 }
@@ -492,6 +496,7 @@ fn footprint_run(name: &str, rec: &[u8], block: Option<usize>, total: usize) -> 
 fn run(ctx: &Ctx) -> Report {
     let mut rep = Report::new();
     owning_iovec::verif::set_quarantine(true);
+    select_oracles(&ctx.prop);
     let mut unit = 0usize;
     match ctx.prop.as_str() {
         "C06" => {
@@ -517,8 +522,17 @@ fn run(ctx: &Ctx) -> Report {
     rep
 }
 
-fn replay(_ctx: &Ctx, text: &str) -> Result<String, String> {
+fn select_oracles(prop: &str) {
+    match prop {
+        "C05" => set_oracles(&[Oracle::Liveness]),
+        "C10" => set_oracles(&[Oracle::Leak, Oracle::Footprint]),
+        _ => set_oracles(&[Oracle::Content]),
+    }
+}
+
+fn replay(ctx: &Ctx, text: &str) -> Result<String, String> {
     owning_iovec::verif::set_quarantine(true);
+    select_oracles(&ctx.prop);
     if let Some(f) = field(text, "footprint") {
         let mut it = f.split_whitespace();
         let name = it.next().unwrap_or("");
@@ -542,6 +556,7 @@ fn replay(_ctx: &Ctx, text: &str) -> Result<String, String> {
     };
     let case = Case { target: if target == "chunker" { "chunker" } else { "reader" }, stream: &stream, block, sched: &sched, judge, arena };
     match case.run() {
+        Err(e) if !relevant(&e) => Err(format!("only a sibling property's oracle fails: {}", e)),
         Err(e) => Ok(e),
         Ok(n) => Err(format!("{} {} as the reference says", n, if target == "chunker" { "chunks tile the stream" } else { "records returned" })),
     }
